@@ -442,7 +442,9 @@ FAMILIES = [
     ("loop-body-def", [{"first": {"for_body", "while_body"}, "then": "*"},
                        {"first": {"in_for", "in_while", "for_iter"},
                         "then": {"global_write", "out_field", "nonlocal", "return", "global_import"}}]),
-    ("free-variable-copy", [{"first": {"global_read", "closure"}, "then": "*"}]),
+    # a free variable (global / enclosing-function variable read in a callee) is only followed in the most direct
+    # shape `s = srcobj.get()` ... `def rd(): sink(s)`; "ctx": any further necessary element puts the path here
+    ("free-variable", [{"first": {"global_read", "closure"}, "then": "*", "ctx": True}]),
     ("try-body-def>loop", [{"first": {"try_body"}, "then": {"for_body", "while_body", "in_for", "in_while"}}]),
 ]
 
@@ -451,12 +453,16 @@ def _strip_label(label):
     return label.split("@", 1)[0]
 
 
-def family_of(seq):
+def family_of(seq, ctx=()):
     seq = [_strip_label(x) for x in seq]
     for name, rules in FAMILIES:
         for r in rules:
             for i, a in enumerate(seq):
-                if a in r["first"] and any(r["then"] == "*" or b in r["then"] for b in seq[i + 1:]):
+                if a not in r["first"]:
+                    continue
+                if any(r["then"] == "*" or b in r["then"] for b in seq[i + 1:]):
+                    return name
+                if r.get("ctx") and (ctx or len(seq) > 1):
                     return name
     return None
 
@@ -591,6 +597,9 @@ class Builder(object):
         self.B = self.files[0].module
 
     # -- names --------------------------------------------------------------------------------
+    def fld(self):
+        return "f%d" % self.c
+
     def var(self, stem="v"):
         self.nv += 1
         return "%s%d_%d" % (stem, self.c, self.nv)
@@ -818,25 +827,25 @@ class Builder(object):
             cls = self.new_class(cur.file, "Bx")
             o = self.var("o")
             E("%s = %s()" % (o, cls.name))
-            E("%s.f = %s" % (o, v))
-            E("%s = %s.f" % (w, o))
+            E("%s.%s = %s" % (o, self.fld(), v))
+            E("%s = %s.%s" % (w, o, self.fld()))
         elif k == "ctor_field":
             tf = self.pick_file(cur.file, link)
             cls = self.new_class(tf, "Ct")
-            init = Frame("method", tf, name="__init__", params=["self", "x"])
-            init.body.append(Line("self.f = x"))
+            init = Frame("method", tf, name="__init__", params=["self", "x%d" % self.c])
+            init.body.append(Line("self.%s = x%d" % (self.fld(), self.c)))
             cls.body.append(init)
             cexpr, lab = self.ref(cur.file, tf, cls.name, link.get("xf"))
             o = self.var("o")
             E("%s = %s(%s)" % (o, cexpr, v))
-            E("%s = %s.f" % (w, o))
+            E("%s = %s.%s" % (w, o, self.fld()))
             k = k + lab
         elif k == "method_field":
             cls = self.new_class(cur.file, "Ms")
-            st = Frame("method", cur.file, name="put", params=["self", "x"])
-            st.body.append(Line("self.f = x"))
+            st = Frame("method", cur.file, name="put", params=["self", "x%d" % self.c])
+            st.body.append(Line("self.%s = x%d" % (self.fld(), self.c)))
             gt = Frame("method", cur.file, name="take", params=["self"])
-            gt.body.append(Line("return self.f"))
+            gt.body.append(Line("return self.%s" % self.fld()))
             cls.body.extend([st, gt])
             o = self.var("o")
             E("%s = %s()" % (o, cls.name))
@@ -844,8 +853,8 @@ class Builder(object):
             E("%s = %s.take()" % (w, o))
         elif k == "static_field":
             cls = self.new_class(cur.file, "Sf")
-            E("%s.f = %s" % (cls.name, v))
-            E("%s = %s.f" % (w, cls.name))
+            E("%s.%s = %s" % (cls.name, self.fld(), v))
+            E("%s = %s.%s" % (w, cls.name, self.fld()))
         elif k == "list_lit":
             l = self.var("l")
             E("%s = [%s]" % (l, v))
@@ -910,14 +919,15 @@ class Builder(object):
             E("%s = 0" % w, extra_ind=4)
         elif k == "lambda":
             g = self.var("g")
-            E("%s = lambda x: x" % g)
+            E("%s = lambda y%d: y%d" % (g, self.c, self.c))
             E("%s = %s(%s)" % (w, g, v))
         elif k in ("call_id", "call_kw"):
-            fexpr, lab = self.helper(cur, link, ["a"], "a")
-            E("%s = %s(%s%s)" % (w, fexpr, "a=" if k == "call_kw" else "", v))
+            pa = "a%d" % self.c
+            fexpr, lab = self.helper(cur, link, [pa], pa)
+            E("%s = %s(%s%s)" % (w, fexpr, (pa + "=") if k == "call_kw" else "", v))
             k = k + lab
         elif k == "call_second":
-            fexpr, lab = self.helper(cur, link, ["a", "b"], "b")
+            fexpr, lab = self.helper(cur, link, ["a%d" % self.c, "b%d" % self.c], "b%d" % self.c)
             E("%s = %s(0, %s)" % (w, fexpr, v))
             k = k + lab
         elif k == "merge_src":
@@ -1040,8 +1050,8 @@ class Builder(object):
         parent.body.insert(idx, Line("%s = %s()" % (b, cls.name), rec.ind))
         cur.params.append(o)
         rec.args.append(("%s=%s" % (o, b)) if any("=" in a for a in rec.args) else b)
-        cur.emit("%s.f = %s" % (o, v))
-        parent.emit("%s = %s.f" % (w, b))
+        cur.emit("%s.%s = %s" % (o, self.fld(), v))
+        parent.emit("%s = %s.%s" % (w, b, self.fld()))
         return parent, w, "out_field"
 
     # -- chains -------------------------------------------------------------------------------
@@ -1060,7 +1070,7 @@ class Builder(object):
                         continue
                     later = val[pos + 1:]
                     if r["then"] == "*":
-                        if later:
+                        if later or r.get("ctx"):
                             links[i] = {"k": "assign"}
                             self.stepped.append(name)
                     else:
@@ -1154,18 +1164,18 @@ class Builder(object):
             cls = self.new_class(cur.file, "Bx")
             o, w = self.var("o"), self.var()
             E("%s = %s()" % (o, cls.name))
-            E("%s.g = 0" % o)
-            E("%s.f = %s" % (o, v))
-            E("%s = %s.g" % (w, o))
+            E("%s.g%d = 0" % (o, self.c))
+            E("%s.%s = %s" % (o, self.fld(), v))
+            E("%s = %s.g%d" % (w, o, self.c))
             self.emit_sink(cur, w, snk, at, ending=end)
         elif end == "unrel_obj":
             cls = self.new_class(cur.file, "Bx")
             o, o2, w = self.var("o"), self.var("o"), self.var()
             E("%s = %s()" % (o, cls.name))
             E("%s = %s()" % (o2, cls.name))
-            E("%s.f = 0" % o2)
-            E("%s.f = %s" % (o, v))
-            E("%s = %s.f" % (w, o2))
+            E("%s.%s = 0" % (o2, self.fld()))
+            E("%s.%s = %s" % (o, self.fld(), v))
+            E("%s = %s.%s" % (w, o2, self.fld()))
             self.emit_sink(cur, w, snk, at, ending=end)
         elif end == "unrel_var":
             w, u = self.var(), self.var()
@@ -1173,7 +1183,7 @@ class Builder(object):
             E("%s = 0" % w)
             self.emit_sink(cur, w, snk, at, ending=end)
         elif end == "const_callee":
-            fexpr, _ = self.helper(cur, {}, ["a"], "1")
+            fexpr, _ = self.helper(cur, {}, ["a%d" % self.c], "1")
             w = self.var()
             E("%s = %s(%s)" % (w, fexpr, v))
             self.emit_sink(cur, w, snk, at, ending=end)
@@ -1402,3 +1412,459 @@ def _stmt_loc(ld, sid, inputs_root):
     rel = os.path.relpath(path, inputs_root) if path.startswith(inputs_root) else os.path.basename(path)
     st = ld.get_stmt_gir(sid)
     return rel, int(st.start_row) + 1, str(st.operation)
+
+
+# =============================================================================================
+# 6. reference rule matcher and coarse dependence graph on the python AST (C11)
+
+class Facts(object):
+    """What the statements of a project are, per (file, line), read from the python AST."""
+
+    def __init__(self, files):
+        self.files = files
+        self.trees = {}
+        self.calls = {}        # (file, line) -> [ast.Call]
+        self.attr_loads = {}   # (file, line) -> [ast.Attribute]
+        self.attr_stores = {}  # (file, line) -> [(ast.Attribute, value expr)]
+        self.defs = {}         # (file, line) -> [ast.FunctionDef]
+        self.dicts = {}        # (file, line) -> [ast.Dict]
+        self.sub_stores = {}   # (file, line) -> [(ast.Subscript, value expr)]
+        self.assign_at = {}    # (file, line) -> [statement nodes]
+        self.known_callables = set()
+        for fn, text in files.items():
+            try:
+                tree = ast.parse(text)
+            except SyntaxError:
+                continue
+            self.trees[fn] = tree
+            for node in ast.walk(tree):
+                ln = getattr(node, "lineno", None)
+                if ln is None:
+                    continue
+                key = (fn, ln)
+                if isinstance(node, ast.Call):
+                    self.calls.setdefault(key, []).append(node)
+                elif isinstance(node, ast.Attribute) and isinstance(node.ctx, ast.Load):
+                    self.attr_loads.setdefault(key, []).append(node)
+                elif isinstance(node, (ast.FunctionDef, ast.AsyncFunctionDef)):
+                    self.defs.setdefault(key, []).append(node)
+                    self.known_callables.add(node.name)
+                elif isinstance(node, ast.ClassDef):
+                    self.known_callables.add(node.name)
+                elif isinstance(node, ast.Dict):
+                    self.dicts.setdefault(key, []).append(node)
+                if isinstance(node, (ast.Assign, ast.AugAssign, ast.AnnAssign, ast.For, ast.Expr, ast.Return)):
+                    self.assign_at.setdefault(key, []).append(node)
+                if isinstance(node, ast.Assign):
+                    for t in node.targets:
+                        if isinstance(t, ast.Attribute):
+                            self.attr_stores.setdefault(key, []).append((t, node.value))
+                        elif isinstance(t, ast.Subscript):
+                            self.sub_stores.setdefault(key, []).append((t, node.value))
+                        elif isinstance(t, ast.Name) and isinstance(node.value, ast.Lambda):
+                            self.known_callables.add(t.id)
+
+
+def _txt(node):
+    try:
+        return ast.unparse(node)
+    except Exception:
+        return "?"
+
+
+def _this(text):
+    return "%this" + text[4:] if text.startswith("self.") or text == "self" else text
+
+
+def _restr_ok(rule, site, ignore=()):
+    if "unit_name" not in ignore and rule.get("unit_name") and rule["unit_name"] != os.path.basename(site[0]):
+        return False
+    if "line_num" not in ignore and rule.get("line_num") and int(rule["line_num"]) != site[1]:
+        return False
+    if "lang" not in ignore and rule.get("lang", "python") not in ("python", "%", "any"):
+        return False
+    return True
+
+
+def source_match(facts, rule, site, ignore=()):
+    """Does the statement at site=(file, line) match the source rule?  `ignore`: filters left out (used to name
+    which field of the rule a wrongly reported statement disagrees with).  -> list of defined-variable seeds."""
+    if not _restr_ok(rule, site, ignore):
+        return None
+    kind = OP_KIND_SRC.get(rule.get("operation"))
+    name = rule.get("name") or ""
+    kinds = [kind] if "operation" not in ignore else ["call", "method", "param", "field"]
+    for kd in kinds:
+        if kd == "call":
+            for c in facts.calls.get(site, []):
+                if isinstance(c.func, ast.Name) and (c.func.id == name or "name" in ignore):
+                    return ["call"]
+        elif kd == "method":
+            for c in facts.calls.get(site, []):
+                if isinstance(c.func, ast.Attribute) and (_txt(c.func) == name or _this(_txt(c.func)) == name or "name" in ignore):
+                    return ["method"]
+        elif kd == "param":
+            for d in facts.defs.get(site, []):
+                for a in d.args.args + d.args.kwonlyargs + d.args.posonlyargs:
+                    if a.arg == name or "name" in ignore:
+                        return ["param:" + a.arg]
+        elif kd == "field":
+            for a in facts.attr_loads.get(site, []):
+                if _txt(a) == name or _this(_txt(a)) == name or "name" in ignore:
+                    return ["field:" + a.attr]
+    return None
+
+
+def sink_match(facts, rule, site, ignore=()):
+    """-> list of designated operand expressions (ast nodes) if the statement at site matches the sink rule."""
+    if not _restr_ok(rule, site, ignore):
+        return None
+    kind = OP_KIND_SNK.get(rule.get("operation"))
+    name = rule.get("name") or ""
+    targets = rule_targets(rule)
+    kinds = [kind] if "operation" not in ignore else ["call", "method", "fieldw", "recordw"]
+    for kd in kinds:
+        if kd in ("call", "method"):
+            for c in facts.calls.get(site, []):
+                if kd == "call":
+                    ok = isinstance(c.func, ast.Name) and (c.func.id == name or "name" in ignore)
+                else:
+                    ok = isinstance(c.func, ast.Attribute) and (_txt(c.func) == name or _this(_txt(c.func)) == name or "name" in ignore)
+                if not ok:
+                    continue
+                ops = []
+                for t in targets:
+                    if t.startswith("arg") and t[3:].isdigit():
+                        i = int(t[3:])
+                        if i < len(c.args):
+                            ops.append(c.args[i])
+                        elif c.keywords and i - len(c.args) < len(c.keywords):
+                            ops.append(c.keywords[i - len(c.args)].value)
+                    elif t == "receiver":
+                        ops.append(c.func.value if isinstance(c.func, ast.Attribute) else c.func)
+                    elif t == "target" or not t:
+                        ops.extend(c.args)
+                        ops.extend(k.value for k in c.keywords)
+                        if isinstance(c.func, ast.Attribute):
+                            ops.append(c.func.value)
+                return ops
+        elif kd == "fieldw":
+            for a, val in facts.attr_stores.get(site, []):
+                if _txt(a) == name or _this(_txt(a)) == name or "name" in ignore:
+                    ops = []
+                    for t in targets:
+                        if t == "arg1":
+                            ops.append(val)
+                        elif t in ("receiver", "arg0"):
+                            ops.append(a.value)
+                        elif t == "target" or not t:
+                            ops.extend([val, a.value])
+                    return ops
+        elif kd == "recordw":
+            key = rule.get("key") or ""
+            for d in facts.dicts.get(site, []):
+                for k, v in zip(d.keys, d.values):
+                    if isinstance(k, ast.Constant) and ('"%s"' % k.value == key or "name" in ignore):
+                        return [v]
+    return None
+
+
+class DepGraph(object):
+    """Flow-insensitive, context-insensitive, name-based dependence graph with two taint modes:
+    D = the value itself derives from the source, C = the value is an object / container holding such a value.
+    Deliberately coarse: names are global over the project, any same-named function and any same-named field are
+    merged, containers are index-insensitive.  Fields are kept apart by name (o.f never feeds o.g)."""
+
+    def __init__(self, facts):
+        self.facts = facts
+        self.edges = {}
+        self.funcs = {}          # name -> [(param names, is method)]
+        for fn, tree in facts.trees.items():
+            for node in ast.walk(tree):
+                if isinstance(node, (ast.FunctionDef, ast.AsyncFunctionDef)):
+                    params = [a.arg for a in node.args.posonlyargs + node.args.args + node.args.kwonlyargs]
+                    self.funcs.setdefault(node.name, []).append(params)
+                elif isinstance(node, ast.Assign) and isinstance(node.value, ast.Lambda):
+                    for t in node.targets:
+                        if isinstance(t, ast.Name):
+                            params = [a.arg for a in node.value.args.args]
+                            self.funcs.setdefault(t.id, []).append(params)
+                            d, c = self.expr(node.value.body)
+                            self.flow(d, ("ret:" + t.id, "D"))
+                            self.flow(c, ("ret:" + t.id, "C"))
+        self.classes = {}
+        for fn, tree in facts.trees.items():
+            for node in ast.walk(tree):
+                if isinstance(node, ast.ClassDef):
+                    self.classes[node.name] = node
+        for fn, tree in facts.trees.items():
+            self.block(tree.body, None)
+
+    def edge(self, a, b):
+        self.edges.setdefault(a, set()).add(b)
+
+    def flow(self, states, dst):
+        for s in states:
+            self.edge(s, dst)
+
+    @staticmethod
+    def root(node):
+        while isinstance(node, (ast.Attribute, ast.Subscript, ast.Call)):
+            node = node.value if not isinstance(node, ast.Call) else node.func
+        return node.id if isinstance(node, ast.Name) else None
+
+    def expr(self, e):
+        """-> (states making e directly tainted, states making e a holder of taint)"""
+        D, C = set(), set()
+        if e is None or isinstance(e, ast.Constant):
+            return D, C
+        if isinstance(e, ast.Name):
+            return {("v:" + e.id, "D")}, {("v:" + e.id, "C")}
+        if isinstance(e, ast.Attribute):
+            d, c = self.expr(e.value)
+            D |= {("f:" + e.attr, "D"), ("v:" + e.attr, "D")} | d
+            C |= {("f:" + e.attr, "C"), ("v:" + e.attr, "C")}
+            return D, C
+        if isinstance(e, ast.Subscript):
+            d, c = self.expr(e.value)
+            return d | c, set(c)
+        if isinstance(e, (ast.List, ast.Tuple, ast.Set)):
+            for x in e.elts:
+                d, c = self.expr(x)
+                C |= d | c
+            return D, C
+        if isinstance(e, ast.Dict):
+            for x in list(e.keys) + list(e.values):
+                d, c = self.expr(x)
+                C |= d | c
+            return D, C
+        if isinstance(e, ast.Call):
+            return self.call(e)
+        if isinstance(e, ast.Lambda):
+            return D, C
+        for ch in ast.iter_child_nodes(e):
+            if isinstance(ch, ast.expr):
+                d, c = self.expr(ch)
+                D |= d
+                C |= c
+        return D, C
+
+    def call(self, e):
+        D, C = set(), set()
+        fname = e.func.id if isinstance(e.func, ast.Name) else (e.func.attr if isinstance(e.func, ast.Attribute) else None)
+        args = list(e.args) + [k.value for k in e.keywords]
+        arg_states = [self.expr(a) for a in args]
+        recv = e.func.value if isinstance(e.func, ast.Attribute) else None
+        rd, rc = self.expr(recv) if recv is not None else (set(), set())
+        known = fname in self.funcs or fname in self.classes
+        if fname in self.funcs:
+            for params in self.funcs[fname]:
+                for p in params:
+                    for d, c in arg_states:
+                        self.flow(d, ("v:" + p, "D"))
+                        self.flow(c, ("v:" + p, "C"))
+                    if recv is not None:
+                        self.flow(rd, ("v:" + p, "D"))
+                        self.flow(rc, ("v:" + p, "C"))
+                    # the callee may store into an object it was given: the caller's argument holds it too
+                    for a in args + ([recv] if recv is not None else []):
+                        r = self.root(a)
+                        if r:
+                            self.edge(("v:" + p, "C"), ("v:" + r, "C"))
+            D.add(("ret:" + fname, "D"))
+            C.add(("ret:" + fname, "C"))
+        if fname in self.classes:
+            for st in ast.walk(self.classes[fname]):
+                if isinstance(st, ast.FunctionDef) and st.name == "__init__":
+                    for a in st.args.args:
+                        for d, c in arg_states:
+                            self.flow(d, ("v:" + a.arg, "D"))
+                            self.flow(c, ("v:" + a.arg, "C"))
+            for d, c in arg_states:
+                C |= d | c
+        if not known:
+            for d, c in arg_states:
+                D |= d | c
+            D |= rd | rc
+        if recv is not None:
+            r = self.root(recv)
+            if r:
+                for d, c in arg_states:
+                    self.flow(d | c, ("v:" + r, "C"))
+        return D, C
+
+    def assign(self, target, D, C, value=None):
+        if isinstance(target, ast.Name):
+            self.flow(D, ("v:" + target.id, "D"))
+            self.flow(C, ("v:" + target.id, "C"))
+            if isinstance(value, ast.Name):     # aliases hold what is later stored through either name
+                self.edge(("v:" + target.id, "C"), ("v:" + value.id, "C"))
+        elif isinstance(target, (ast.Tuple, ast.List)):
+            if isinstance(value, (ast.Tuple, ast.List)) and len(value.elts) == len(target.elts):
+                for t, v in zip(target.elts, value.elts):
+                    d, c = self.expr(v)
+                    self.assign(t, d, c, v)
+            else:
+                for t in target.elts:
+                    self.assign(t, D | C, set(C))
+        elif isinstance(target, ast.Attribute):
+            for pre in ("f:", "v:"):
+                self.flow(D, (pre + target.attr, "D"))
+                self.flow(C, (pre + target.attr, "C"))
+            r = self.root(target.value)
+            if r:
+                self.flow(D | C, ("v:" + r, "C"))
+        elif isinstance(target, ast.Subscript):
+            r = self.root(target.value)
+            if r:
+                self.flow(D | C, ("v:" + r, "C"))
+        elif isinstance(target, ast.Starred):
+            self.assign(target.value, D, C)
+
+    def block(self, body, func):
+        for st in body:
+            if isinstance(st, (ast.FunctionDef, ast.AsyncFunctionDef)):
+                self.block(st.body, st.name)
+            elif isinstance(st, ast.ClassDef):
+                self.block(st.body, func)
+            elif isinstance(st, ast.Assign):
+                D, C = self.expr(st.value)
+                for t in st.targets:
+                    self.assign(t, D, C, st.value)
+            elif isinstance(st, ast.AugAssign):
+                D, C = self.expr(st.value)
+                self.assign(st.target, D, C)
+            elif isinstance(st, ast.AnnAssign):
+                D, C = self.expr(st.value)
+                self.assign(st.target, D, C, st.value)
+            elif isinstance(st, ast.Return):
+                D, C = self.expr(st.value)
+                if func:
+                    self.flow(D, ("ret:" + func, "D"))
+                    self.flow(C, ("ret:" + func, "C"))
+            elif isinstance(st, ast.Expr):
+                self.expr(st.value)
+            elif isinstance(st, (ast.For, ast.AsyncFor)):
+                D, C = self.expr(st.iter)
+                self.assign(st.target, D | C, set(C))
+                self.block(st.body, func)
+                self.block(st.orelse, func)
+            elif isinstance(st, ast.While):
+                self.expr(st.test)
+                self.block(st.body, func)
+                self.block(st.orelse, func)
+            elif isinstance(st, ast.If):
+                self.expr(st.test)
+                self.block(st.body, func)
+                self.block(st.orelse, func)
+            elif isinstance(st, ast.Try):
+                self.block(st.body, func)
+                for h in st.handlers:
+                    self.block(h.body, func)
+                self.block(st.orelse, func)
+                self.block(st.finalbody, func)
+            elif isinstance(st, ast.With):
+                for it in st.items:
+                    D, C = self.expr(it.context_expr)
+                    if it.optional_vars is not None:
+                        self.assign(it.optional_vars, D, C)
+                self.block(st.body, func)
+
+    def closure(self, seeds):
+        seen = set(seeds)
+        work = list(seeds)
+        while work:
+            a = work.pop()
+            for b in self.edges.get(a, ()):
+                if b not in seen:
+                    seen.add(b)
+                    work.append(b)
+        return seen
+
+    def source_seeds(self, site, how):
+        """initial states for a source statement; how = result of source_match."""
+        seeds = set()
+        for h in how:
+            if h.startswith("param:"):
+                seeds.add(("v:" + h[6:], "D"))
+            if h.startswith("field:"):
+                # the source is the field: every read of that field name carries it
+                seeds.add(("f:" + h[6:], "D"))
+                seeds.add(("v:" + h[6:], "D"))
+        for st in self.facts.assign_at.get(site, []):
+            if isinstance(st, ast.Assign):
+                for t in st.targets:
+                    for n in ast.walk(t):
+                        if isinstance(n, ast.Name):
+                            seeds.add(("v:" + n.id, "D"))
+                        elif isinstance(n, ast.Attribute):
+                            seeds.add(("f:" + n.attr, "D"))
+                            r = self.root(n.value)
+                            if r:
+                                seeds.add(("v:" + r, "C"))
+            elif isinstance(st, (ast.AugAssign, ast.AnnAssign)):
+                for n in ast.walk(st.target):
+                    if isinstance(n, ast.Name):
+                        seeds.add(("v:" + n.id, "D"))
+            elif isinstance(st, ast.For):
+                for n in ast.walk(st.target):
+                    if isinstance(n, ast.Name):
+                        seeds.add(("v:" + n.id, "D"))
+            elif isinstance(st, ast.Return):
+                pass
+        return seeds
+
+    def operand_states(self, expr):
+        d, c = self.expr(expr)
+        return d | c
+
+
+def justify(facts, graph, rules, flow):
+    """flow = (src file, src line, sink file, sink line).  -> dict describing how the flow is (not) justified."""
+    ssite, tsite = (flow[0], flow[1]), (flow[2], flow[3])
+    out = {"source_rule": False, "sink_rule": False, "dependence": False, "other_operand": False,
+           "source_relax": None, "sink_relax": None}
+    seeds = set()
+    for r in rules["source"]:
+        how = source_match(facts, r, ssite)
+        if how is not None:
+            out["source_rule"] = True
+            seeds |= graph.source_seeds(ssite, how)
+    ops = []
+    for r in rules["sink"]:
+        o = sink_match(facts, r, tsite)
+        if o is not None:
+            out["sink_rule"] = True
+            ops.extend(o)
+    if not out["source_rule"]:
+        out["source_relax"] = _relax(facts, rules["source"], ssite, source_match)
+        # still compute the dependence from whatever the statement defines
+        seeds |= graph.source_seeds(ssite, [])
+    if not out["sink_rule"]:
+        out["sink_relax"] = _relax(facts, rules["sink"], tsite, sink_match)
+    reach = graph.closure(seeds)
+    for o in ops:
+        if graph.operand_states(o) & reach:
+            out["dependence"] = True
+    if not out["dependence"]:
+        # does any operand of the sink statement depend on the source?  (wrong position vs no dependence at all)
+        for c in facts.calls.get(tsite, []):
+            for a in list(c.args) + [k.value for k in c.keywords] + ([c.func.value] if isinstance(c.func, ast.Attribute) else []):
+                if graph.operand_states(a) & reach:
+                    out["other_operand"] = True
+        for a, val in facts.attr_stores.get(tsite, []):
+            if (graph.operand_states(val) | graph.operand_states(a.value)) & reach:
+                out["other_operand"] = True
+    return out
+
+
+def _relax(facts, rules, site, matcher):
+    """Smallest set of rule fields that has to be ignored for some rule to match the statement."""
+    import itertools
+    fields = ["line_num", "unit_name", "lang", "operation", "name"]
+    for n in (1, 2, 3):
+        for combo in itertools.combinations(fields, n):
+            for r in rules:
+                if matcher(facts, r, site, ignore=combo) is not None:
+                    return "+".join(combo)
+    return "nothing-close"
